@@ -96,6 +96,22 @@ func sizeClass(n int) string {
 
 // ------------------------------------------------------------------ values of chosen output size
 
+// `,string` fields: the x86 emitters write doubly quoted strings (`"\"\""` for the empty one) and quoted numbers
+type StrOpt struct {
+	S  string  `json:"s,string"`
+	E  string  `json:"e,string"`
+	I  int64   `json:"i,string"`
+	U  uint8   `json:"u,string"`
+	F  float64 `json:"f,string"`
+	B  bool    `json:"b,string"`
+	P  *string `json:"p,string"`
+	N  json.Number `json:"n,string"`
+}
+
+type StrOne struct {
+	S string `json:"s,string"`
+}
+
 type NanRec struct {
 	S string   `json:"s"`
 	F float64  `json:"f"`
@@ -357,6 +373,8 @@ func runInto() {
 		[]int{}, []int{1, 2, 3}, []string{"a", "b"}, map[string]int{"k": 1}, map[string]interface{}{}, []byte("binary data!"), []byte{},
 		json.Number("12345.678e9"), json.RawMessage(`{"raw":[1,2]}`), &Rec{A: 7, S: "s", L: []int{1}, M: map[string]string{"a": "b"}, B: []byte("xyz"), H: "<>"},
 		[]interface{}{1, "a", nil, true, 2.5, []interface{}{}}, struct{}{}, [3]bool{true, false, true}, (*int)(nil),
+		StrOne{""}, StrOne{"x"}, &StrOne{"with \"quote\" and \\"}, []StrOne{{""}, {""}, {"a"}}, map[string]StrOne{"k": {""}},
+		StrOpt{S: "", E: "e", I: -1 << 63, U: 255, F: -2.5e-300, B: true, N: "12"}, &StrOpt{S: "nonempty", E: "", P: new(string), N: "0"},
 		&Rec{A: 1, S: "nan inside", P: &Rec{M: map[string]string{"k": "v"}, P: &Rec{S: "deep"}}}, nanRec(), []interface{}{"x", math.NaN()}, map[string]interface{}{"a": []float64{1, math.Inf(1)}},
 		struct {
 			A int8
@@ -456,6 +474,20 @@ type Dst struct {
 	B []byte            `json:"b"`
 }
 
+func clip(s string, at int) string {
+	lo, hi := at-12, at+20
+	if lo < 0 {
+		lo = 0
+	}
+	if hi > len(s) {
+		hi = len(s)
+	}
+	if lo > hi {
+		lo = hi
+	}
+	return s[lo:hi]
+}
+
 func fieldDump(d Dst) map[string]string {
 	m := map[string]string{}
 	v := reflect.ValueOf(d)
@@ -510,6 +542,70 @@ func runAlias() {
 				}
 			}
 			rep.Calls++
+		}
+		// 2b. every Config combination that changes how strings / numbers are stored, over destinations holding every
+		// string-like kind (string, json.Number, RawMessage, map keys, []byte, interface{} at value positions)
+		for bits := 0; bits < 16; bits++ {
+			cfg := sonic.Config{CopyString: bits&1 != 0, UseNumber: bits&2 != 0, UseInt64: bits&4 != 0, ValidateString: bits&8 != 0}
+			if cfg.UseNumber && cfg.UseInt64 {
+				continue // Decoder.SetOptions documents a panic for this pair
+			}
+			api := cfg.Froze()
+			doc2 := fmt.Sprintf(`{"a":"%s","l":["%s"],"m":{"key%d%s":"%s"},"i":{"s":"%s","num":%d.5e1,"int":%d,"arr":["%s",%d],"k%s":null},"r":{"raw":["%s",%d]},"n":%d,"b":"aGVsbG8=","big":123456789012345678901234567890}`,
+				s, s, i, "q", s, s, i+1, i+7, s, i+3, "w", s, i, r.Intn(1000000))
+			for di, mk := range []func() interface{}{
+				func() interface{} { return new(Dst) },
+				func() interface{} { return new(interface{}) },
+				func() interface{} { return new(map[string]interface{}) },
+				func() interface{} { return new(map[string]json.RawMessage) },
+				func() interface{} { return new(map[string]json.Number) },
+				func() interface{} { return new([]interface{}) },
+			} {
+				d2 := doc2
+				if di == 4 {
+					d2 = fmt.Sprintf(`{"k%d":%d,"x%s":1.25e%d,"big":123456789012345678901234567890}`, i, i+11, "y", i%30)
+				}
+				if di == 5 {
+					d2 = fmt.Sprintf(`[%d,"%s",{"k%d":%d.75},1e%d,[%d,"z%d"]]`, i+5, s, i, i, i%25, i*3+1, i)
+				}
+				in := []byte(d2)
+				dst := mk()
+				if err := api.Unmarshal(in, dst); err != nil {
+					continue
+				}
+				before := dump(dst)
+				overwrite(in)
+				if after := dump(dst); after != before {
+					fail("input-aliased", fmt.Sprintf("Config%+v.Unmarshal([]byte) into %T: decoded values changed when the input buffer was overwritten (first difference at %d: %q -> %q)",
+						cfg, dst, firstDiff([]byte(after), []byte(before)), clip(before, firstDiff([]byte(after), []byte(before))), clip(after, firstDiff([]byte(after), []byte(before)))), nil, *seed, i)
+				}
+				rep.Calls++
+			}
+			// Get([]byte) with every path kind: the node and everything loaded from it must own its bytes
+			for _, path := range [][]interface{}{{}, {"i"}, {"i", "s"}, {"i", "num"}, {"r"}, {"l", 0}, {"big"}} {
+				if bits != 0 {
+					break // Get is not configurable
+				}
+				in := []byte(doc2)
+				nd, err := sonic.Get(in, path...)
+				if err != nil {
+					continue
+				}
+				nd2, _ := sonic.Get(in, path...) // a second node for the loaded view (Raw() of a loaded node is re-encoded)
+				raw1, _ := nd.Raw()
+				raw1c := string(append([]byte{}, raw1...))
+				iv1, _ := nd2.Interface()
+				nv1, _ := nd2.InterfaceUseNumber()
+				b1 := dump([]interface{}{iv1, nv1})
+				overwrite(in)
+				raw2, _ := nd.Raw()
+				iv2, _ := nd2.Interface()
+				nv2, _ := nd2.InterfaceUseNumber()
+				if raw1 != raw1c || raw2 != raw1c || dump([]interface{}{iv1, nv1}) != b1 || dump([]interface{}{iv2, nv2}) != b1 {
+					fail("input-aliased", fmt.Sprintf("sonic.Get([]byte, %v): Raw()/Interface() of the node changed when the input buffer was overwritten", path), nil, *seed, i)
+				}
+				rep.Calls++
+			}
 		}
 		// 3. sonic.Get([]byte): the node must own its bytes
 		{
